@@ -347,7 +347,7 @@ def _call(g, fx, key, ctx, bi, t, cur, starts, unws, tr, depth, max_depth, do_in
         recv = args[0] if args else ('unknown', 'recv')
         for i in range(cfn['argc'] - 1):
             if i == 0 and name in SOME_OF_RECV and ai != 0:
-                amap[2 + i] = ('field', ('variant', recv, 'Some'), '0')
+                amap[2 + i] = ('field', ('variant', recv, 'Some'), '0', 0)
             elif name in ELEM_OF_RECV and ai != 0:
                 amap[2 + i] = ('index', recv)
             else:
